@@ -147,7 +147,7 @@ func cmdCheck(args []string) int {
 		}
 		if !*noSelf {
 			for _, id := range ids {
-				outcomes[id].SelfTest = eng.RunSelfTests(*repo, *verif, id)
+				outcomes[id].SelfTest = eng.RunSelfTests(*repo, *verif, id, runSafely)
 			}
 		}
 	} else {
